@@ -632,6 +632,10 @@ class PostgreSQLQueryBuilder(QueryBuilder):
 
     @builder
     def returning(self, *terms: Any) -> "PostgreSQLQueryBuilder":
+        if terms and not any([self._insert_table, self._update_table, self._delete_from]):
+            # '*', constants and field-less functions used to slip through the per-field check
+            raise QueryException("Returning can't be used in this query")
+
         for term in terms:
             if isinstance(term, Field):
                 self._return_field(term)
